@@ -754,15 +754,27 @@ func (w *c14World) waitStable() c14Stable {
 			}
 			return c14Stable{kind: "blocked", idx: idx}
 		}
-		if spins < 2000 {
+		if w.gate != nil {
+			// part "fetch" runs many worlds concurrently and waits on a 2 s poll of the code under test: do not spin
+			if spins < 20 {
+				runtime.Gosched()
+				continue
+			}
+			d := time.Duration(spins) * 10 * time.Microsecond
+			if d > 2*time.Millisecond {
+				d = 2 * time.Millisecond
+			}
+			time.Sleep(d)
+		} else if spins < 2000 {
 			runtime.Gosched()
 			continue
+		} else {
+			time.Sleep(100 * time.Microsecond)
 		}
 		if deadline.IsZero() {
 			deadline = time.Now().Add(c14StableTimeout)
 		}
-		time.Sleep(100 * time.Microsecond)
-		if spins%256 == 0 && time.Now().After(deadline) {
+		if spins%64 == 0 && time.Now().After(deadline) {
 			return c14Stable{kind: "timeout"}
 		}
 	}
